@@ -106,6 +106,8 @@ def gen_case(rng):
         p['eps'] = max(p.get('eps', 1e-3), 1e-4)
     if p['ttm']:
         p['shape_arg'] = True
+    # layout of the dense source when an explicit shape is passed (the constructor reshapes first)
+    p['layout'] = rng.choice(['natural', 'natural', 'flat', 'matrix', 'unit_axis'])
     return p
 
 
@@ -162,11 +164,18 @@ def call_ctor(p, A):
     kw = {'eps': p['eps']}
     if p['rmax'] is not None:
         kw['rmax'] = p['rmax']
+    lay = p.get('layout', 'natural')
     if p.get('ttm'):
+        if lay == 'flat':
+            A = A.reshape(-1)
+        elif lay == 'matrix':
+            A = A.reshape(int(np.prod(p['M'])), int(np.prod(N)))
+        elif lay == 'unit_axis':
+            A = A.reshape(list(A.shape) + [1])
         src = A.numpy() if p['src'] == 'numpy' else A
         return TT(src, [(m, n) for m, n in zip(p['M'], N)], **kw)
     if p['shape_arg']:
-        flat = A.reshape(-1) if len(N) > 1 else A
+        flat = A.reshape(-1) if lay in ('natural', 'flat') else A.reshape(list(A.shape) + [1]) if lay == 'unit_axis' else A.reshape(N[0], -1)
         src = flat.numpy() if p['src'] == 'numpy' else flat
         return TT(src, shape=list(N), **kw)
     src = A.numpy() if p['src'] == 'numpy' else A
@@ -247,6 +256,8 @@ def exec_case(p, res, plans=None, rng=None):
     p2['eps'] = eps_of(p)
     fam = '%s|d%d|%s|%s|%s|%s' % (p['cls'], len(p['N']), 'M' if p.get('ttm') else 'T', p['dt'], p['src'],
                                   'rmaxlist' if isinstance(p['rmax'], list) else 'rmax' if p['rmax'] else 'norm')
+    if p.get('ttm') or p['shape_arg']:
+        fam += '|' + p.get('layout', 'natural')
 
     def call():
         return call_ctor(p2, A)
@@ -345,6 +356,8 @@ def shrink_candidates(desc):
         yield {'case': dict(p, dt='f64'), 'plan': plan}
     if p['src'] != 'torch':
         yield {'case': dict(p, src='torch'), 'plan': plan}
+    if p.get('layout', 'natural') != 'natural':
+        yield {'case': dict(p, layout='natural'), 'plan': plan}
     if p['rmax'] is not None:
         yield {'case': dict(p, rmax=None), 'plan': plan}
     if p.get('noise'):
